@@ -220,6 +220,97 @@ func blockAttempt(in timingIn) map[string]any {
 	return att
 }
 
+// midPayloadAttempt: the carrier hands endpoint 1's reader the header and part of the
+// payload of a data message for a stream that has unread buffered data, a Read on that
+// stream is in progress, and then the carrier fails (Rel "carrier-fail") or the
+// multiplexer is closed locally (Rel "local-mux-close"). The Read must return, and so
+// must a further Read, SetReadDeadline(past) and Stream.Close.
+func midPayloadAttempt(in timingIn) map[string]any {
+	att := map[string]any{"blocked": false, "returned": false, "lat": 0, "err": "", "setup": "", "follows": []map[string]any{}}
+	p := newPair(nil, false, 0, in.W, in.B, in.Bufs, 0)
+	defer p.shutdown()
+	a, b, err := openPair(p)
+	if err != nil {
+		att["setup"] = "open failed: " + errKind(err)
+		return att
+	}
+	if _, err := a.Write([]byte{1, 2, 3, 4}); err != nil {
+		att["setup"] = "first write failed"
+		return att
+	}
+	time.Sleep(3 * time.Millisecond) // delivered and buffered; nobody has read yet
+	d := p.l.dir[0]
+	d.setGated(true)
+	if _, err := a.Write([]byte{5, 6, 7, 8, 9, 10}); err != nil {
+		att["setup"] = "second write failed"
+		return att
+	}
+	if !d.waitFor(2*time.Second, func() bool { return len(d.queue) > 0 }) {
+		att["setup"] = "second message not seen"
+		return att
+	}
+	// kind byte + identifier + 2 length bytes + 3 of 6 payload bytes
+	d.mu.Lock()
+	hdr := len(d.queue[0].raw) - 6
+	d.mu.Unlock()
+	if !d.deliverPartial(hdr+3, 2*time.Second) {
+		att["setup"] = "partial delivery did not settle"
+		return att
+	}
+	done := make(chan error, 1)
+	var tret atomic.Int64
+	go func() {
+		_, err := b.Read(make([]byte, 1))
+		tret.Store(int64(nowMs()))
+		done <- err
+	}()
+	select {
+	case err := <-done:
+		att["err"] = errKind(err)
+		att["setup"] = "read returned before the failure"
+		return att
+	case <-time.After(settleBlock):
+	}
+	att["blocked"] = true
+	if in.Rel == "carrier-fail" {
+		p.l.fail()
+	} else {
+		p.mux[1].Close()
+	}
+	trel := nowMs()
+	select {
+	case err := <-done:
+		att["returned"] = true
+		att["err"] = errKind(err)
+		lat := int(tret.Load()) - trel
+		if lat < 0 {
+			lat = 0
+		}
+		att["lat"] = lat
+	case <-time.After(waitAfterRel):
+		att["lat"] = int(waitAfterRel / time.Millisecond)
+	}
+	waitUntil(2*time.Second, func() bool { return isClosedChan(p.mux[1].Closed()) })
+	var follows []map[string]any
+	for _, op := range []string{"read", "setrd-past", "close"} {
+		op := op
+		t0 := nowMs()
+		res := watchdog(waitAfterRel, func() callResult {
+			switch op {
+			case "read":
+				_, err := b.Read(make([]byte, 1))
+				return callResult{err: err}
+			case "setrd-past":
+				return callResult{err: b.SetReadDeadline(time.Now().Add(-time.Second))}
+			}
+			return callResult{err: b.Close()}
+		})
+		follows = append(follows, map[string]any{"op": op, "returned": !res.hung, "lat": nowMs() - t0, "err": kindOf(res)})
+	}
+	att["follows"] = follows
+	return att
+}
+
 // holAttempt: one stalled stream, N active streams that must move their data.
 func holAttempt(in timingIn) map[string]any {
 	att := map[string]any{"stalled": false, "finished": false, "ms": 0, "moved": []int{}, "want": []int{}, "setup": ""}
@@ -489,6 +580,13 @@ func runTimingCase(cid string, in timingIn) *recorder {
 			if f, has := a["follow"].(map[string]any); has && (f["returned"] != true || f["err"] != "") {
 				return false
 			}
+			if fs, has := a["follows"].([]map[string]any); has {
+				for _, f := range fs {
+					if f["returned"] != true {
+						return false
+					}
+				}
+			}
 			return a["blocked"] == true && a["returned"] == true && a["lat"].(int) <= limitMs
 		case "hol":
 			if a["stalled"] != true || a["finished"] != true {
@@ -517,7 +615,11 @@ func runTimingCase(cid string, in timingIn) *recorder {
 		var a map[string]any
 		switch in.Kind {
 		case "block":
-			a = blockAttempt(in)
+			if in.Call == "midpayload" {
+				a = midPayloadAttempt(in)
+			} else {
+				a = blockAttempt(in)
+			}
 		case "hol":
 			a = holAttempt(in)
 		default:
@@ -563,6 +665,10 @@ func timingCases(c *vlib.Ctx) []timingIn {
 		for _, rel := range []string{"deadline-preset", "deadline-set", "deadline-past"} {
 			out = append(out, timingIn{Mode: "timing", Kind: "block", Call: "writenobuf", Rel: rel,
 				W: 64, B: 2, Bufs: 1, Seed: rng.Int63()})
+		}
+		for _, rel := range []string{"carrier-fail", "local-mux-close"} {
+			out = append(out, timingIn{Mode: "timing", Kind: "block", Call: "midpayload", Rel: rel,
+				W: 64, B: 2, Bufs: bufs[rng.Intn(3)], Seed: rng.Int63()})
 		}
 		for _, call := range []string{"open", "accept"} {
 			for _, rel := range openRels {
